@@ -53,6 +53,20 @@ def analyse(prog, func, string_param_reader=None):
         return (ent_of(s) if s is not None else None), True
 
     decls = {d['id']: d for d in func.local_decls()}
+    # pointer variables that may hold the address of a local array (p = arr): a string read through p reads arr
+    aliases = {}
+    for m in func.body.walk():
+        tgt = src = None
+        if m.k == 'BinaryOperator' and m.get('op') == '=' and strip(m.ch[0]).k == 'DeclRefExpr':
+            tgt, src = ent_of(m.ch[0]), strip(m.ch[1])
+        elif m.k == 'DeclStmt':
+            for d in m['decls']:
+                if d.get('init', -1) != -1 and (d.get('ct') or '').rstrip().endswith('*'):
+                    s_ = strip(func.nodes[d['init']])
+                    if s_ is not None and s_.k == 'DeclRefExpr' and (s_.get('ct') or '').rstrip().endswith(']'):
+                        aliases.setdefault(('v', d['id']), set()).add(ent_of(s_))
+        if tgt is not None and src is not None and src.k == 'DeclRefExpr' and (src.get('ct') or '').rstrip().endswith(']'):
+            aliases.setdefault(tgt, set()).add(ent_of(src))
 
     def zero_tail(ent, size_arg, whole):
         """the destination is a zero-initialised local array written from its start with a constant
@@ -111,8 +125,8 @@ def analyse(prog, func, string_param_reader=None):
                             reads = 'const char' in pt if string_param_reader is None else string_param_reader(t, i)
                     if reads and name not in NON_TERMINATING and TERMINATING.get(name, -1) != i:
                         for f in st:
-                            if f[1] == ent:
-                                report(e, ent, f[2])
+                            if f[1] == ent or f[1] in aliases.get(ent, ()):
+                                report(e, f[1], f[2])
             new = set(st)
             if name in NON_TERMINATING:
                 di, si = NON_TERMINATING[name]
@@ -136,7 +150,35 @@ def analyse(prog, func, string_param_reader=None):
                 ent = ent_of(l.ch[0])
                 v = strip(e.ch[1])
                 if ent is not None and v is not None and v.get('v') == 0:
-                    return frozenset(f for f in st if f[1] != ent)
+                    # the terminator must sit at or before the end of what the writer copied: a store further
+                    # back (the last byte of the buffer, say) leaves whatever the buffer held before in between
+                    k = strip(l.ch[1])
+
+                    def behind_copy(f):
+                        o = func.nodes[f[2]]
+                        spec = NON_TERMINATING.get(o.get('callee'))
+                        # only the copy family: their count is exactly what is (at most) copied; gethostname/readlink/
+                        # read report or bound the length differently
+                        if o.get('callee') not in ('strncpy', 'stpncpy', 'memcpy', 'memmove', '__builtin_strncpy', '__builtin_memcpy'):
+                            return True
+                        if spec is None or spec[1] is None or spec[1] >= len(o.ch) - 1:
+                            return True
+                        n = strip(o.ch[1:][spec[1]])
+                        if k is None or n is None:
+                            return True
+                        if render(k) == render(n):
+                            return True
+                        kv, nv = k.get('v'), n.get('v')
+                        if kv is not None and nv is not None:
+                            return kv <= nv
+                        if kv == 0:
+                            return True
+                        # n - c  with the same n
+                        if k.k == 'BinaryOperator' and k.get('op') == '-' and render(strip(k.ch[0])) == render(n) and \
+                                (strip(k.ch[1]).get('v') or 0) >= 0:
+                            return True
+                        return False
+                    return frozenset(f for f in st if f[1] != ent or not behind_copy(f))
             if l.k == 'UnaryOperator' and l['op'] == '*':
                 ent, _ = base_ent(l.ch[0])
                 v = strip(e.ch[1])
